@@ -1,4 +1,4 @@
-\* as coded (guard size < MaxLen before an insertion): well-formedness holds, crossover respects MaxLen
+\* repaired guard (insert only if the call and its dependencies fit): LenBound holds as well
 CONSTANTS
   NObj = 2
   Types = {"A"}
@@ -8,10 +8,9 @@ CONSTANTS
   MaxStmts = 3
   MaxCtr = 4
   MaxSteps = 3
-  InsertGuard = "as_coded"
+  InsertGuard = "room"
   Raw = FALSE
 SPECIFICATION Spec
 INVARIANT AllWF
-INVARIANT CounterOK
-INVARIANT CrossoverLenBound
+INVARIANT LenBound
 CONSTRAINT Bounded
